@@ -166,6 +166,44 @@ class Report:
         return r
 
 
+SHAPES = [(), (1,), (1, 1), (3, 1), (1, 3), (2, 3), (0,), (0, 2), (2, 1, 2)]
+
+
+def shape_probe(fn, xs, shapes=SHAPES, accept_0d_array=False):
+    """"scalars map to scalars, arrays to arrays of the same shape": evaluate `fn` on the same values arranged in several
+    shapes (incl. length-1 and length-0 axes, where squeeze/atleast_1d/boolean-mask code goes wrong) and compare with the
+    element-wise reference fn(1-D array).  Returns a list of (shape, description) for every failing shape."""
+    import numpy as np
+
+    def same(u, v):
+        # element-wise agreement up to a few ulps (numpy's scalar and array code paths may round differently)
+        u, v = np.asarray(u, dtype=float), np.asarray(v, dtype=float)
+        return bool(np.all((u == v) | (np.isnan(u) & np.isnan(v)) | (np.abs(u - v) <= 1e-9 * np.maximum(np.abs(u), np.abs(v)))))
+    xs = list(xs)
+    out = []
+    ref = np.asarray(fn(np.array(xs, dtype=float)))
+    if ref.shape != (len(xs),):
+        return [((len(xs),), f"1-D query of length {len(xs)} gave shape {list(ref.shape)}")]
+    for sh in shapes:
+        n = int(np.prod(sh)) if sh else 1
+        if n > len(xs):
+            continue
+        if sh == ():
+            r = fn(xs[0])
+            if not (np.isscalar(r) or (accept_0d_array and np.shape(r) == ())):
+                out.append((sh, f"scalar query gave {type(r).__name__} of shape {list(np.shape(r))}"))
+            elif not same(r, ref[0]):
+                out.append((sh, "scalar query differs from the same value inside an array"))
+            continue
+        q = np.array(xs[:n], dtype=float).reshape(sh)
+        r = fn(q)
+        if np.shape(r) != sh:
+            out.append((sh, f"query of shape {list(sh)} gave shape {list(np.shape(r))}"))
+        elif not same(np.ravel(np.asarray(r, dtype=float)), ref[:n]):
+            out.append((sh, f"query of shape {list(sh)} is not the element-wise result"))
+    return out
+
+
 def jsonable(x):
     import numpy as np
     if isinstance(x, Fr):
